@@ -611,7 +611,37 @@ func RuleFGap(c *core.Ctx) {
 	} else {
 		c.Ob(rule, key, tail.Pos(), core.FuncName(format), core.Discharged, "text[pos:] is written before every success return")
 	}
-	c.Floor(rule, 3)
+	// every function between the commands and Format reaches it on every success
+	// path: a wrapper that returns success without formatting hands an empty
+	// buffer to the atomic replacement
+	var wrappers []*ssa.Function
+	for _, fn := range p.SrcFuncs() {
+		if !p.InModule(fn) || fn == format {
+			continue
+		}
+		calls := false
+		core.EachInstr(fn, func(ins ssa.Instruction) {
+			if call, ok := ins.(*ssa.Call); ok && call.Call.StaticCallee() == format {
+				calls = true
+			}
+		})
+		if calls {
+			wrappers = append(wrappers, fn)
+		}
+	}
+	sort.Slice(wrappers, func(i, j int) bool { return wrappers[i].String() < wrappers[j].String() })
+	for _, fn := range wrappers {
+		k := core.FuncName(fn) + ":formats on every success path"
+		if esc, _ := mustPass(p, fn, func(ins ssa.Instruction) bool {
+			call, ok := ins.(*ssa.Call)
+			return ok && call.Call.StaticCallee() == format
+		}); esc != "" {
+			c.Ob(rule, k, fn.Pos(), core.FuncName(fn), core.Violated, "the function can report success without having formatted the file ("+esc+"): the caller replaces the file by whatever was written so far — nothing")
+		} else {
+			c.Ob(rule, k, fn.Pos(), core.FuncName(fn), core.Discharged, "Printer.Format is called before every success return")
+		}
+	}
+	c.Floor(rule, 4)
 }
 
 func isZeroOrEnd(p *core.Prog, v ssa.Value, endF *types.Var) bool {
